@@ -492,6 +492,41 @@ def run_server(ctx, reps):
                         if otype == 2 and got.get("len") != nbytes * 8:
                             ctx.report("c06:derived-length-attribute", "derived key reports length %s for %d bytes"
                                        % (got.get("len"), nbytes), {"kind": "server", "item": it, "key": key.hex()})
+            # DeriveKey by ENCRYPT over the block cipher modes, with and without an Initialization Vector: a derived
+            # key is a function of the request (two identical requests give the same material); where the stated
+            # parameters determine the cipher completely (IV given, or ECB) it equals the independent reference
+            for mode, mcls, padded in ((1, modes.CBC, True), (2, modes.ECB, True), (4, modes.CFB, False),
+                                       (5, modes.OFB, False), (6, modes.CTR, False)):
+                for iv_given in (True, False):
+                    otype = r.choice([2, 7])
+                    nbytes = r.choice([8, 16])
+                    ddata, iv = rb(r.choice([16, 32])), rb(16)
+                    tmpl = {"tnames": 0, "attrs": [attr("Cryptographic Length", {"k": "int", "v": nbytes * 8})] +
+                            ([attr("Cryptographic Algorithm", {"k": "enum", "v": 3})] if otype == 2 else [])}
+                    it = {"op": "deriveKey", "bid": None, "otype": otype, "uids": [base], "tmpl": tmpl, "method": 4,
+                          "ddata_hex": ddata.hex(), "div_hex": iv.hex() if iv_given else None,
+                          "cp": {"mode": mode, "padding": 3 if padded else None, "alg": 3}}
+                    vals = []
+                    for _rep in (0, 1):
+                        count += 1
+                        res = req([dict(it)])[0]
+                        vals.append(bytes.fromhex(get_value(res["data"]["uid"]).get("value") or "")
+                                    if res.get("status") == "ok" else None)
+                    rep = {"kind": "server", "item": it, "key": key.hex()}
+                    if vals[0] is not None and vals[1] is not None and vals[0] != vals[1]:
+                        ctx.report("c06:derive-not-deterministic:ENCRYPT:%d" % mode,
+                                   "two identical DeriveKey requests (ENCRYPT, block cipher mode %d, IV %s) derived different "
+                                   "key material" % (mode, "given" if iv_given else "absent"), rep)
+                    elif iv_given or mode == 2:
+                        c = Cipher(algorithms.AES(key), mcls() if mode == 2 else mcls(iv), backend=default_backend()).encryptor()
+                        pad = 16 - len(ddata) % 16
+                        ref = (c.update(ddata + bytes([pad]) * pad if padded else ddata) + c.finalize())[:nbytes]
+                        if vals[0] is None:
+                            ctx.report("c06:server-derive-refused:ENCRYPT:%d" % mode,
+                                       "DeriveKey ENCRYPT mode %d with%s IV was refused" % (mode, "" if iv_given else "out"), rep)
+                        elif vals[0] != ref:
+                            ctx.report("c06:derived-differs-from-reference:ENCRYPT:%d" % mode,
+                                       "DeriveKey ENCRYPT mode %d output differs from an independent use of the cipher" % mode, rep)
             # a non-positive requested length cannot be honoured: the request must be refused
             for bits in (0, -8, -64):
                 for otype in (2, 7):
